@@ -50,7 +50,7 @@ def _shape(rng):
         n = rng.randint(2, 30)
         edges = [(i, i + 1) for i in range(n - 1)]
     elif kind == "star":
-        n = rng.randint(3, 9)
+        n = rng.choice([rng.randint(3, 9), rng.randint(10, 24)])
         edges = [(0, i) for i in range(1, n)]
     elif kind == "ring":
         n = rng.randint(3, 12)
@@ -103,7 +103,7 @@ def generate(run_seed, prop, tier="quick"):
     for _ in range(rng.randint(1, 4)):
         roll = rng.random()
         if roll < 0.7 or not ops:
-            ops.append({"op": "layout", "bond": rng.choice([1, 1, 0.35, 2.5, 1.54, 10.0, 0.01]),
+            ops.append({"op": "layout", "bond": rng.choice([1, 1, 0.35, 2.5, 1.54, 10.0, 0.01, 1e-4, 750.0, 3]),
                         "np_seed": rng.randrange(2 ** 32) if rng.random() < 0.65 else None,
                         "relabel": rng.choice(["none", "none", "shuffle", "strings", "offset"]),
                         "relabel_seed": rng.randrange(2 ** 30),
